@@ -32,6 +32,7 @@ type GenesisScenario struct {
 	Addr        []byte `json:"addr"`
 	EmptyAddr   bool   `json:"empty_addr,omitempty"`
 	Invalid     string `json:"invalid,omitempty"` // no-chain-id | height-0 | zero-time | no-address
+	Tail        string `json:"tail,omitempty"`    // trailing: what follows the valid genesis object in the file
 	ByHand      bool   `json:"by_hand,omitempty"` // invalid file written as JSON text, key omitted / null
 	CutPermille int    `json:"cut_permille,omitempty"`
 }
@@ -51,7 +52,7 @@ const (
 
 func genGenesis(t *rapid.T) GenesisScenario {
 	sc := GenesisScenario{}
-	sc.Mode = rapid.SampledFrom([]string{"roundtrip", "roundtrip", "roundtrip", "create", "invalid", "invalid", "truncated"}).Draw(t, "mode")
+	sc.Mode = rapid.SampledFrom([]string{"roundtrip", "roundtrip", "roundtrip", "create", "invalid", "invalid", "truncated", "trailing"}).Draw(t, "mode")
 	sc.ChainID = genString(t, "chain")
 	if sc.ChainID == "" {
 		sc.ChainID = "c"
@@ -107,6 +108,9 @@ func genGenesis(t *rapid.T) GenesisScenario {
 		sc.ByHand = rapid.Bool().Draw(t, "byhand")
 	case "truncated":
 		sc.CutPermille = rapid.IntRange(0, 999).Draw(t, "cut")
+	case "trailing":
+		sc.Tail = rapid.SampledFrom([]string{"whitespace", "second-genesis", "garbage", "leftover", "leftover", "number"}).Draw(t, "tail")
+		sc.CutPermille = rapid.IntRange(0, 999).Draw(t, "tailcut")
 	}
 	return sc
 }
@@ -248,6 +252,50 @@ func runGenesis(sc GenesisScenario, tmp string) (v world.Verdict) {
 		if got, err := genesis.LoadGenesis(path); err == nil {
 			file, _ := os.ReadFile(path)
 			return world.Fail("C18/genesis-invalid-accepted:"+sc.Invalid, "LoadGenesis accepts an invalid genesis file (%s) and returns %+v\n%s", sc.Invalid, got, file)
+		}
+		return world.OK(true, labels...)
+
+	case "trailing":
+		// a complete, valid genesis object followed by more bytes (an older, longer file overwritten in place;
+		// a second genesis appended; junk): the file is not a genesis document, only white space may follow
+		if err := g.Save(path); err != nil {
+			return world.Fail("C18/genesis-save-error", "Save failed for %+v: %v", g, err)
+		}
+		file, _ := os.ReadFile(path)
+		var tail []byte
+		switch sc.Tail {
+		case "whitespace":
+			tail = []byte("\n \t\r\n")
+		case "second-genesis":
+			g2 := g
+			g2.ChainID = g.ChainID + "-other"
+			tail, _ = json.MarshalIndent(g2, "", "  ")
+		case "garbage":
+			tail = []byte("}}\x00garbage")
+		case "number":
+			tail = []byte(" 7")
+		default: // leftover: the end of a longer file that used to be there
+			tail = append([]byte(nil), file[len(file)*sc.CutPermille/1000:]...)
+			if len(bytes.TrimSpace(tail)) == 0 {
+				tail = []byte("}")
+			}
+		}
+		labels = append(labels, "tail:"+sc.Tail)
+		if err := os.WriteFile(path, append(append([]byte(nil), file...), tail...), 0o600); err != nil {
+			panic(err)
+		}
+		got, err := genesis.LoadGenesis(path)
+		if sc.Tail == "whitespace" {
+			if err != nil {
+				return world.Fail("C18/genesis-load-error", "LoadGenesis refuses a genesis file followed by white space only: %v", err)
+			}
+			if d := sameGenesis(g, got); d != "" {
+				return world.Fail("C18/genesis-roundtrip", "genesis followed by white space loads back different: %s", d)
+			}
+			return world.OK(true, labels...)
+		}
+		if err == nil {
+			return world.Fail("C18/genesis-trailing-content-accepted", "LoadGenesis accepts a genesis file in which %d more bytes (%s) follow the genesis object, and returns %+v", len(tail), sc.Tail, got)
 		}
 		return world.OK(true, labels...)
 
